@@ -331,10 +331,10 @@ def truncate_basename(basename, iso_level, is_dir):
     else:
         maxlen = 31 if is_dir else 30
 
-    # For performance reasons, we first truncate the string to the length
-    # allowed.  Second, ISO9660 Levels 1, 2, and 3 require all uppercase names,
-    # so we uppercase it.
-    valid_base = basename[:maxlen].upper()
+    # ISO9660 Levels 1, 2, and 3 require all uppercase names, so we uppercase
+    # it.  Uppercasing can change the length of the string (e.g. the German
+    # sharp s becomes 'SS'), so we only truncate to the allowed length afterwards.
+    valid_base = basename.upper()[:maxlen]
 
     # Finally, ISO9660 requires only uppercase letters, 0-9, and underscore.
     # Translate any non-compliant characters to underscore and return that.
@@ -398,12 +398,12 @@ def mangle_file_for_iso9660(orig, iso_level):
 
         # If the extension is empty, too long (> 3), or contains any illegal
         # characters, we treat it as part of the basename instead
-        extlen = len(ext)
+        tmpext = ext.upper()
+        extlen = len(tmpext)
         if extlen == 0 or extlen > 3:
             valid_ext = ''
             basename = orig
         else:
-            tmpext = ext.upper()
             valid_ext, numsub = re.subn('[^A-Z0-9_]{1}', r'_', tmpext)
             if numsub > 0:
                 valid_ext = ''
